@@ -322,7 +322,7 @@ def filler(rng, k, wide=False):
 def gen_tb_case(rng, idx):
     """-> dict(files={modname: text}, entry=[modname, funcname|None], shape=..)"""
     shape = rng.choice(["func", "func", "module-first", "module-last", "multi", "cross", "long", "chain",
-                        "import-chain", "tabs", "longline"])
+                        "import-chain", "tabs", "longline", "formfeed"])
     lead = rng.choice([0, 0, 1, 3, 5, 12])
     a = "c17m%d_a" % idx
     b = "c17m%d_b" % idx
@@ -357,6 +357,12 @@ def gen_tb_case(rng, idx):
         files[b] = "\n" * rng.choice([0, 1, 3]) + "x = 1\nraise ImportError('inner module')\n"
         files[a] = "\n".join(head + ["y = 2", "import %s" % b]) + "\n"
         entry = [a, None]
+    elif shape == "formfeed":
+        # page breaks (and other characters str.splitlines() - but not Python - treats as line ends) well
+        # above the failing line, outside the displayed window
+        sep = rng.choice(["\x0c", "\x0c", "# \x0b", "# \x1c", "# \u2028", "# \x85"])
+        body = head + ["# page one", sep, "A = 1", sep] + filler(rng, rng.randint(8, 14)) + ["def run():", "    return A // 0"] + filler(rng, rng.randint(0, 3))
+        files[a] = "\n".join(body) + "\n"
     elif shape == "tabs":
         body = head + ["def run():", "\tfor i in range(3):", "\t\tif i == 2:", "\t\t\traise IndexError(i)", "\t\tj = i", "\treturn j"]
         files[a] = "\n".join(body) + "\n"
